@@ -147,6 +147,7 @@ type VC struct {
 	iterTypes map[string]types.Type
 	compTypes map[string][]types.Type
 	nact     int
+	rootFrame *frame
 	compMath map[string]func(*VC)
 }
 
